@@ -66,6 +66,11 @@ CHECKS = {
          'Flop, stud, razz, single/triple draw, badugi, Omaha and custom street lists (hole and board on one street, mixed facing, draw with up-cards, no burn), 2-3 players (thorough 4), 1-2 boards, 20-card-deck stud (replenish, hole-to-board fallback) and 7-8 handed stud: every history within k deviations from the default betting action x every dealing interleaving (default, several cards per call, explicit dealee) x discards none/one/two/all is checked against the street definitions: burn first iff prescribed, per live player exactly the prescribed cards with the prescribed facing, default dealee order, cards per board, draws return exactly what was discarded with the same facing, folded players get nothing, no betting before dealing is complete.',
          'Deviation bound per family in the evidence; admissible decks only; cards per default deal_hole() call are not constrained.',
          'DESIGN.md section 4 C10'),
+ 'C11': ('model_checking',
+         'exhaustive comparison of every variant class / PHH code x parameter grid with an independent variant table, plus explicit-state BFS of each variant in product with the betting automaton instantiated from that table',
+         'Static: the 12 predefined classes and the 11 PHH variant codes x bet sizes x 2-4 players x modes are compared field by field (deck as a set, hand types, per street burn / hole facing / board cards / draw / opening rule / small-big bet / cap, structure, forced-bet kind) with a table written from the rules of the games. Dynamic: every history within k deviations on two stack vectors per variant plus heads-up raise wars to depth 6 is explored in lock-step with the betting-rules automaton configured from the table, so a variant wired with the wrong structure, bet size or cap accepts amounts the table forbids; split games must push a high and a low half on scripted decks.',
+         'The table is the trusted base (refs/variants.py); deviation-bounded dynamic part.',
+         'DESIGN.md section 4 C11'),
 }
 
 def main():
